@@ -4,6 +4,7 @@
 mod common;
 mod c17;
 mod c10;
+mod c07;
 
 use common::*;
 use std::path::PathBuf;
@@ -14,7 +15,7 @@ fn main() {
         eprintln!("usage: umya_harness <prop> <quick|thorough|replay> <seed> <outdir> [replay-file]");
         std::process::exit(2);
     }
-    std::panic::set_hook(Box::new(|_| {}));
+    if std::env::var("UMYA_SHOW_PANIC").is_err() { std::panic::set_hook(Box::new(|_| {})); }
     let prop = args[1].to_lowercase();
     let tier = if args[2] == "thorough" { Tier::Thorough } else { Tier::Quick };
     let seed: u64 = args[3].parse().unwrap_or(0);
@@ -28,6 +29,7 @@ fn main() {
     match prop.as_str() {
         "c17" => c17::run(&mut out, tier, seed, replay),
         "c10" => c10::run(&mut out, tier, seed, replay),
+        "c07" => c07::run(&mut out, tier, seed, replay),
         _ => {
             eprintln!("unknown property {}", prop);
             std::process::exit(2);
